@@ -100,7 +100,7 @@ class World:
         s.cap = cap
         s.pfx = '@s%d_' % N
         s.heap_lens = tuple(heap_lens)
-        o2 = dict(merge_calls=('insert_ii', 'Hex$u20$as$u20$core..clone..Clone', 'drop_in_place$LT$sodg..Hex'))
+        o2 = dict(merge_calls=('insert_ii', 'Hex$u20$as$u20$core..clone..Clone', 'drop_in_place$LT$sodg..Hex', 'sodg..Vertex$LT$_$GT$$u20$as$u20$core..clone..Clone', 'micromap..Map$LT$K$C$V$C$_$GT$$u20$as$u20$core..clone..Clone'))
         o2.update(opts or {})
         s.vm = VM(mod, o2)
         s.mcap = min(cap, NSLOT)      # members that can matter under Inv (distinct ids < cap)
@@ -184,6 +184,19 @@ class World:
     def a_cnt(s, b): return s.b0 + b * s.b_stride + s.k_next
     def a_item(s, b, k): return s.b0 + b * s.b_stride + s.k_item + k * s.k_istride
     def a_ctr(s, b): return s.s0 + b * s.s_stride
+
+    def view(s, probe):
+        """a second World-like reader for another Sodg instance of the same configuration (e.g. a clone),
+        given the 24 words its verif_probe reported"""
+        import copy
+        o = copy.copy(s)
+        P = probe
+        o.f_stores, o.f_branches, o.f_vertices, o.f_nextv = P[0], P[1], P[2], P[3]
+        o.v0 = P[5]
+        o.s0 = P[11]
+        o.b0 = P[13]
+        o.g = None
+        return o
 
     # ------------------------------------------------------------ readers (any state)
     def tag(s, st, i): return s.rd(st, s.a_tag(i), 8)
